@@ -173,7 +173,6 @@ def bsrEq (atol : α) (q1 : Int) (ax1 : Vec3 α) (an1 ph1 : α) (q2 : Int) (ax2 
 /-- `Gate.__eq__` dispatch: two plain rotations use `bsrEq`, everything else `compare_gates`. -/
 def gateEq (atol : α) : Gate α → Gate α → Except Err Bool
   | .bsr q1 a1 n1 p1, .bsr q2 a2 n2 p2 => .ok (bsrEq atol q1 a1 n1 p1 q2 a2 n2 p2)
-  | .bsr _ _ _ _, _ => .ok false     -- `isinstance(other, BlochSphereRotation)` fails
   | g1, g2 => compareGates atol g1 g2
 
 end OSq
